@@ -320,7 +320,7 @@ PROPS['C07']['scope'] = ('(a) every emitted `impl restrictions::CheckRestriction
 PROPS['C07']['level_text'] = ('(a) Per corpus program, the code EMITTED by the current generator is verified by Verus/Z3 against `sat`/`dom` predicates that an '
                               'independent schema reader derives from the XSD: for ALL values of each generated type, check_restrictions is Ok iff every declared '
                               'facet holds (inherited facets of derived simple types included), composing through struct members, Option and Vec up to the '
-                              'request envelope. The quantifier over schemas is the corpus (12 hand-written programs; generated family in the thorough tier). '
+                              'request envelope. The quantifier over schemas is the corpus (the hand-written corpus programs plus 3 generated ones; 45 generated in the thorough tier). '
                               '(b) ' + PROPS['C07']['level_text'])
 PROPS['C07']['level_note'] += (' L3: contracts of the helper runtime are imported from units R and S (proved there). Stand-ins for yaserde derives. '
                                'Known finding: own facets of a simple type derived from a named simple type are not enforced.')
